@@ -24,7 +24,7 @@ ASSUMPTIONS = [
     '"picking a side" is read as: a side (net add) of the flattened input may disappear from the result only if it equals or is an ancestor of another side; a base may disappear only if it is absent or an ancestor of a side',
     'async functions are run to completion in one poll (no modelled future is ever Pending), the schedule block_on gives them',
 ]
-BUDGET = {'quick': 280, 'thorough': 3000}
+BUDGET = {'quick': 900, 'thorough': 3000}
 F = 'lib/src/refs.rs'
 ABS = -1
 
